@@ -3,7 +3,7 @@
    every run from the patterns of the current source tree and the prompt grammars of spec/prompts.py).
    This file contains only statements closed by [exact]. *)
 From Coq Require Import String.
-From Verif Require Import Bytes Regex RegexDeriv RegexDecide Regex_Proofs Prompt Prompt_Proofs PromptCache PromptCache_Proofs.
+From Verif Require Import Bytes Regex RegexDeriv RegexDecide Regex_Proofs RegexSearch RegexSearch_Proofs Prompt Prompt_Proofs PromptCache PromptCache_Proofs.
 From Gen Require Import Gen_PromptCache.
 
 (* the decision procedure: a validated closed certificate means NO byte string at all is accepted *)
@@ -12,6 +12,14 @@ Theorem C05_decision_sound :
   forall s, all_bytes s = true -> accepts t0 s = false.
 Proof. exact decide_empty_sound. Qed.
 Print Assumptions C05_decision_sound.
+
+(* the one-pass search used by the fact checker: it answers true only when the set of states it found is
+   closed under every byte and contains no accepting state — again NO byte string at all is accepted *)
+Theorem C05_search_sound :
+  forall CL atoms fuel t0, decide1 CL atoms fuel t0 = true ->
+  forall s, all_bytes s = true -> accepts t0 s = false.
+Proof. exact decide1_sound. Qed.
+Print Assumptions C05_search_sound.
 
 (* a decided fact is a statement about EVERY string of the grammar *)
 Theorem C05_fact_sound : forall fuel f, fact_check_auto fuel f = true -> fact_holds f.
